@@ -15,6 +15,8 @@ CLAIMED = {
          'Trusted: model catalogue (checked_*, rem_euclid, Option plumbing). Outside: constructor string parsing (regex, chrono), ip, decimal parsing.', '4 C07'),
  'C14': ('TPE response: classification of residual policies into the eight bucket sets and the residual map (one loop step from an arbitrary state, Residual::is_true/is_false/is_error executed from MIR), completion-quantified decision table, reason(), ResidualPolicy -> Policy conversion, policy_set() presents the residuals',
          'Trusted: environment stubs for iterator/HashMap/HashSet/PolicySet::add and uninterpreted Policy getters. Outside: tpe::Evaluator simplification rules, can_error_assuming_well_formed, consistency checks, query_* APIs.', '4 C14'),
+ 'C16': ('level checker: per-node level calculus of check_expr_level / check_entity_deref_target_level (every node kind, arbitrary child levels and maximum): every child visited with the right access path, dereferences report `maximum level exceeded` iff target level >= max (=> monotone in the maximum), +1 for entity attribute access and getTag, max over if-branches, non-action literals rejected',
+         'Trusted: recursive calls as arbitrary levels; Expr::data annotation as entity/record/other. The RFC-76 induction from the per-node calculus to slice sufficiency is a paper argument and NOT decided; record-literal access-path lookup and the loop over request environments are outside.', '4 C16'),
  'C18': ('SymCC constant folding: symcc::bitvec::BitVec {add,sub,mul,udiv,urem,sdiv,srem,smod,neg,not,slt,sle,ult,ule,to_int,of_int,overflows} executed from the MIR of cedar-policy-symcc (num-bigint as SMT integers) against the SMT-LIB definitions at widths 1,2,8,64 (thorough: +3,32,128), and the factory overflow predicates bvsaddo/bvssubo/bvsmulo/bvnego on literal operands against the exact-integer overflow condition (= i64::checked_* returning None at width 64)',
          'Trusted: big-integer model (mir2smt/bigint.py), SMT-LIB semantics as written in the obligations. Outside: compile(), SymEnv::from_concrete_env, verify_* assert builders, extension-type string parsing, shifts/extract/concat.', '4 C18'),
  'C20': ('panic-freedom of the cedar-policy-core kernels encoded for C01/C02/C07/C13/C14: every MIR assert / unwrap / expect / unreachable! / explicit panic on a feasible path is a failed obligation',
@@ -34,7 +36,6 @@ NA = {
  'C11': 'machinery not built yet (type-directed conformance per node planned, see DESIGN.md section 4)',
  'C12': 'logos + regex + pretty + the core parser',
  'C15': 'typechecker + TPE evaluator + loader loop with iterator/closure bodies; its only encodable piece (tpe::Response decision table) belongs to C14',
- 'C16': 'machinery not built yet (level calculus per node planned, see DESIGN.md section 4)',
  'C17': 'feature-gated analysis over typed ASTs plus evaluation over sliced stores',
  'C19': 'serde_json, the parser, thread-local caches, process exit codes',
 }
